@@ -2,7 +2,7 @@
    Nothing but statements, `exact`, Print Assumptions (+ examples). *)
 From Coq Require Import List Bool Arith NArith.
 From FwdLib Require Import Bytes.
-From G12 Require Import Tables Errors Exchange Framing Check ErrorsProofs ExchangeProofs FramingProofs Obligations.
+From G12 Require Import Tables Expected Errors Exchange Framing Check ErrorsProofs ExchangeProofs FramingProofs Indexing Obligations.
 Import ListNotations.
 Local Open Scope N_scope.
 
@@ -145,6 +145,26 @@ Theorem T12_five_errors_then_close : forall rs, (forall x, In x rs -> x = HErr) 
   (loop max_consecutive_errors 0 rs <= 5)%nat.
 Proof. exact (five_errors ob_max_consecutive_errors). Qed.
 Print Assumptions T12_five_errors_then_close.
+
+(* Crash-freedom, the part proof can carry: the sites where the transcribed functions index, slice or assert a type
+   are exactly the recorded ones (obligations ob_index_sites, ob_type_assert_sites against the source of this run), and
+   each is in range: b[0] in handleMITM under its guard, p[:1] of dialvia's byteReader for every fill of its bufio
+   buffer, the full slices hdr[:], the label arity of the Prometheus calls; every type assertion but conn.ReadFrom's
+   is in the two-value form. *)
+Theorem T12_index_obligations :
+  (forall b0, first_is_handshake b0 <> None) /\
+  (forall w, (w < N.to_nat byte_reader_buffer_size)%nat -> slice_ok (N.to_nat byte_reader_buffer_size - w) 0 1 = true) /\
+  (forall n, slice_ok n 0 n = true) /\
+  record_prefixes_fit = true /\
+  (forall custom m c, length (label_values custom m c) = length (label_names custom) /\
+                      length (b "code" :: label_values custom m c) = length (b "code" :: label_names custom)) /\
+  ta_all_others_two_valued = true /\
+  index_sites = exp_index_sites /\ type_assert_sites = exp_type_assert_sites.
+Proof.
+  exact (conj ix_mitm_first_byte (conj (ix_byte_reader_slice ob_byte_reader_buffer) (conj ix_full_slice (conj ob_record_prefixes_fit
+        (conj ix_label_arity (conj ob_ta_all_others_two_valued (conj ob_index_sites ob_type_assert_sites))))))).
+Qed.
+Print Assumptions T12_index_obligations.
 
 (* Non-vacuity: a concrete response in each framing meets the hypotheses. *)
 Example T12_example :
